@@ -32,7 +32,7 @@ CHECKS = {
         note=ALG_NOTE, design="4/C04"),
     "C05": dict(
         level="model_checking",
-        technique="exact rational betweenness defined in TLA+ over the path sets; TLC-enumerated families + random graphs replayed; TLC trace monitor",
+        technique="TLA+ state machine of the Brandes search and accumulation (BrandesMech) model-checked against the exact rational betweenness defined in TLA+ over the path sets, for every heap pop order; TLC-enumerated families + random graphs replayed; TLC trace monitor",
         text="betweenness_centrality (weighted x normalized) of every enumerated / random graph equals the exact rational definition (sum over ordered pairs of the fraction of shortest paths through v, halving / (n-1)(n-2) conventions).",
         note=ALG_NOTE, design="4/C05"),
     "C06": dict(
